@@ -271,8 +271,8 @@ pub fn case_info(bytes: &[u8]) -> Result<CaseInfo, (Failure, serde_json::Value)>
     if src.chance(40) {
         let canon_text = printer::print_canonical(&model);
         let settings = CodegenSettings::default();
-        let a = pg::Grammar::from_str(&canon_text).ok().and_then(|g| std::panic::catch_unwind(|| g.generate_code(&settings).ok().map(|t| t.to_string())).ok().flatten());
-        let b = std::panic::catch_unwind(|| parsed.generate_code(&settings).ok().map(|t| t.to_string())).ok().flatten();
+        let a = pg::Grammar::from_str(&canon_text).ok().and_then(|g| verif_core::util::catch(|| g.generate_code(&settings).ok().map(|t| t.to_string())).ok().flatten());
+        let b = verif_core::util::catch(|| parsed.generate_code(&settings).ok().map(|t| t.to_string())).ok().flatten();
         if !parens && a != b {
             return Err(fail(Failure::new("two layouts of the same grammar generate different code", "identical code", "different code"), &text));
         }
